@@ -1,7 +1,8 @@
 """C14 — geometry cells are decoded and encoded as CF chapter 7.5 defines.
 
 Streams
-  C14.read   random cells hand-encoded with netCDF4 -> cfdm.read -> bounds.array,
+  C14.read   random cells hand-encoded with netCDF4 (count / ring variables in every integer
+             storage type, counts up to the types' limits) -> cfdm.read -> bounds.array,
              interior ring, shape, geometry type          (model + independent CF 7.5 decoder)
   C14.write  a field built through the API from random cells -> cfdm.write -> the
              node / count / ring variables read back with netCDF4
@@ -10,9 +11,21 @@ Streams
                                                           (oracle only)
   C14.seed   the geometry files of cfdm/test/create_test_files.py (function bodies loaded
              with ast) -> cfdm.read vs the independent decoder  (oracle only)
+  C14.multi  2-3 geometry fields built through the API -> ONE cfdm.write -> every container
+             decoded independently (node_count on the data variable's own cell dimension,
+             the field's own cells / rings / representative coordinates / grid mapping) and
+             read back; the sharing pattern of dimensions and variables vs the model
+                                                          (model + independent CF 7.5 decoder)
+  C14.mread  1-3 containers and 1-4 data variables hand-encoded in one file (own / shared
+             dimensions, groups, grid mapping, node variable attributes) -> cfdm.read
+                                                          (model + independent CF 7.5 decoder)
+  C14.ops    a field -> subspace along the cell axis / squeeze / transpose, and
+             insert_dimension / transpose / squeeze of the coordinates -> observed, written,
+             decoded independently                        (model + independent CF 7.5 decoder)
 
 The node values written to a file are the node's offset in file order (+1000*k for
-the k-th node coordinate variable), so every observable is a list of offsets.
+the k-th node coordinate variable, +100000 per node set / container), so every observable
+is a list of offsets.
 """
 import ast
 import atexit
@@ -41,21 +54,51 @@ REQUIRED = [
     "C14_consistent",
     "C14_spec_decode_encode",
     "C14_encode_decode",
+    "C14_assign_any_storage_width",
+    "C14_storage_accumulator_counterexample",
+    "C14_storage_accumulator_ok_when_fits",
+    "C14_share_only_equal",
+    "C14_multi_written_containers",
+    "C14_multi_count_shared_only_if",
+    "C14_multi_decode",
+    "C14_multi_old_counterexample",
+    "C14_multi_samekind_needed",
+    "C14_subspace",
+    "C14_write_after_subspace",
+    "C14_ops_shapes",
 ]
-BUDGET = {"quick": 2000, "thorough": 50000}
+BUDGET = {"quick": 2000, "thorough": 42000}
 RULE = (
     "geometry containers with 1-6 cells x 1-4 parts per cell x 1-5 nodes per part (varying inside a container), "
     "geometry_type point/line/polygon, node_count / part_node_count / interior_ring present or absent where CF allows, "
-    "1-3 node coordinate variables (x,y,z), any subset of them with representative coordinates, data variable on "
-    "(instance[,time]) in either order, NETCDF4 or NETCDF3 files; for the write half the same cells as a field "
-    "built ab initio (no file involved). non-trivial = more than one cell, or more than one part, or more than one "
-    "node; distinct = distinct (stream, cell structure, ring flags, presence flags, coordinate sets)"
+    "stored as i1/u1/i2/u2/i4/u4/i8/u8 with, in a dedicated family, multi-part cells whose node totals are at or beyond "
+    "the largest value of the part counts' type (bytes: every run; 16-bit: a few per run), 1-3 node coordinate "
+    "variables (x,y,z), any subset of them with representative coordinates, data variable on (instance[,time]) in "
+    "either order, NETCDF4 or NETCDF3 files; for the write half the same cells as a field built ab initio; multi: 2-3 "
+    "fields per cfdm.write derived from one another (same / other cell dimension name, same / other node values per "
+    "coordinate, same node counts with other parts, other rings, other representative coordinates, other type, "
+    "unrelated, grid mapping, node properties); mread: 1-3 containers x 1-4 data variables per file (own or shared "
+    "instance / node / part dimensions, shared node variables, group, grid mapping, node attribute subsets); ops: "
+    "slices of either sign, integer lists, single cells, then none / transpose / squeeze of the field and up to four "
+    "insert_dimension / transpose / squeeze of the coordinates, then cfdm.write. non-trivial = more than one cell, "
+    "part, node, field or container; distinct = distinct (stream, cell structures, ring flags, presence flags, "
+    "storage types, coordinate sets, sharing choices, operations)"
 )
 ASSUMPTIONS = [
-    "node values are abstract labels (their file offsets); dtypes, units and packing are outside the model",
+    "node values are abstract labels (their file offsets); packing and the data types of the coordinates are outside "
+    "the model; the storage type of the count variables is a parameter of the model",
     "containers are CF-consistent: every count >= 1, sum(part_node_count) = sum(node_count) = number of nodes, "
-    "cell boundaries fall on part boundaries (the theorems carry exactly these hypotheses)",
-    "one geometry container per file; no grid mapping on the container (cfdm.write of grid mappings is a separate finding)",
+    "cell boundaries fall on part boundaries (the theorems carry exactly these hypotheses); a count never equals the "
+    "default fill value of an unsigned storage type",
+    "multi: the model is the writer with the repair proposed for the open finding "
+    "write-node-variable-reused-with-other-cells; on the inputs where the repair changes a sharing decision /repo "
+    "must behave exactly as the model of the writer as it stands (old=1); the geometry coordinates of one field "
+    "have the same cell structure; equality of coordinate constructs is structural equality of the generated inputs",
+    "mread / multi read-back: containers that share a node or part dimension with other counts, or node variables "
+    "with another type, are generated rarely (open findings of cfdm.read); cfdm.read of a multi-field file is "
+    "skipped for most inputs bound to meet them (the file is always decoded independently)",
+    "the empty grid_mapping attribute that cfdm.write puts on every geometry container (open finding) is checked "
+    "on a 3-4% sample of the write / multi cases only",
 ]
 TIME_LIMIT = {"quick": 170, "thorough": 1400}
 QUICK_JOBS = 8
@@ -118,7 +161,76 @@ def gen_cells(rng, single_node=False, single_part=False):
     return cells
 
 
-def gen_container(rng):
+INT_TYPES = ["i1", "u1", "i2", "u2", "i4", "u4", "i8", "u8"]
+INT_TYPES_NC3 = ["i1", "i2", "i4"]
+# largest value a count variable of the type can hold
+INT_MAX = {"i1": 127, "u1": 255, "i2": 32767, "u2": 65535, "i4": 2**31 - 1, "u4": 2**32 - 1,
+           "i8": 2**63 - 1, "u8": 2**64 - 1}
+
+
+def gen_big_cells(rng, ctype):
+    """Cells whose part counts each fit the storage type `ctype` of the count variables while the
+    node count of some multi-part cell is near or beyond the type's largest value (e.g. byte
+    counts 100 and 90 in one cell): whatever arithmetic is done in the storage type wraps."""
+    top = INT_MAX[ctype]
+    wide = top > 255
+    ncells = rng.choice([1, 2, 3] if wide else [1, 2, 3, 3, 4, 5])
+    hot = rng.randrange(ncells)
+    cells = []
+    for ci in range(ncells):
+        if ci == hot or (not wide and rng.random() < 0.25):
+            npart = rng.choice([2, 2, 3] if wide else [2, 2, 3, 4])
+            mode = rng.choice(["beyond", "beyond", "at", "just-below", "just-beyond"])
+            if mode == "beyond":
+                c = [rng.randint(max(1, top // 3), top - top // 8) for _ in range(npart)]
+            else:
+                want = {"at": top, "just-below": top - 1, "just-beyond": top + 1}[mode]
+                # split `want` into npart positive counts, each <= top
+                while True:
+                    cuts = sorted(rng.sample(range(1, want), npart - 1))
+                    c = [b - a for a, b in zip([0] + cuts, cuts + [want])]
+                    if max(c) < top:
+                        break
+            cells.append(c)
+        else:
+            cells.append([rng.randint(1, 4) for _ in range(rng.randint(1, 2))])
+    return cells
+
+
+def gen_int_types(rng, p, fmt):
+    """Storage types of the node_count / part_node_count / interior_ring variables: every netCDF
+    integer type (CF does not prescribe one); a third of the containers keep i4 everywhere."""
+    pool = INT_TYPES_NC3 if fmt.startswith("NETCDF3") else INT_TYPES
+    if rng.random() < 0.3:
+        return dict(nc_type="i4", pnc_type="i4", ring_type="i4")
+    return dict(nc_type=rng.choice(pool), pnc_type=rng.choice(pool), ring_type=rng.choice(pool))
+
+
+def fit_types(p):
+    """Widen a count type that cannot hold the generated counts (a cell's node count may be
+    larger than every part count)."""
+    order_s = ["i1", "i2", "i4", "i8"]
+    order_u = ["u1", "u2", "u4", "u8"]
+    nc3 = str(p.get("fmt", "")).startswith("NETCDF3")
+
+    def widen(t, top):
+        order = order_s if (t[0] == "i" or nc3) else order_u
+        k = order.index(t) if t in order else 0
+        # the largest value of an unsigned type is its default fill value: cfdm (like the netCDF
+        # library for the wider types) reads it as missing, so it is not used as a count
+        while INT_MAX[order[k]] - (1 if order[k][0] == "u" else 0) < top:
+            k += 1
+        return order[k]
+
+    cells = p["cells"]
+    p["nc_type"] = widen(p["nc_type"], max(sum(c) for c in cells))
+    p["pnc_type"] = widen(p["pnc_type"], max(v for c in cells for v in c))
+    return p
+
+
+def gen_container(rng, big=None):
+    if big is not None:
+        return gen_container_big(rng, big)
     gtype = rng.choice(["point", "line", "polygon", "polygon"])
     r = rng.random()
     use_nc, use_pnc, use_ring = True, True, False
@@ -152,16 +264,214 @@ def gen_container(rng):
     return dict(gtype=gtype, cells=cells, use_nc=use_nc, use_pnc=use_pnc, ring=ring, coords=coords, rep=rep)
 
 
+def gen_container_big(rng, ctype):
+    """A multi-part container whose counts are near the limits of the storage type `ctype`."""
+    gtype = rng.choice(["line", "polygon", "polygon"])
+    cells = gen_big_cells(rng, ctype)
+    ring = None
+    if gtype == "polygon" and rng.random() < 0.6:
+        ring = [[0] + [rng.randint(0, 1) for _ in c[1:]] for c in cells]
+    coords = rng.choice([["x"], ["y"]] if INT_MAX[ctype] > 255 else [["x"], ["x", "y"], ["x", "y"], ["x", "y", "z"]])
+    rep = [a for a in coords if rng.random() < 0.5]
+    return dict(gtype=gtype, cells=cells, use_nc=True, use_pnc=True, ring=ring, coords=coords, rep=rep,
+                big=ctype)
+
+
+def regroup_parts(rng, cells):
+    """The same node count per cell, another division into parts."""
+    out = []
+    for c in cells:
+        total = sum(c)
+        npart = rng.randint(1, min(total, 3))
+        cuts = sorted(rng.sample(range(1, total), npart - 1)) if npart > 1 else []
+        out.append([b - a for a, b in zip([0] + cuts, cuts + [total])])
+    return out
+
+
+def recount_cells(rng, cells):
+    """The same parts in file order (hence the same nodes), grouped into other cells."""
+    parts = [v for c in cells for v in c]
+    if len(parts) < 2:
+        return [[parts[0]]] if parts else cells
+    ncells = rng.randint(1, len(parts))
+    cuts = sorted(rng.sample(range(1, len(parts)), ncells - 1)) if ncells > 1 else []
+    return [parts[a:b] for a, b in zip([0] + cuts, cuts + [len(parts)])]
+
+
+def ring_for(rng, gtype, cells, p_ring=0.6):
+    if gtype != "polygon" or rng.random() >= p_ring:
+        return None
+    return [[0] + [rng.randint(0, 1) for _ in c[1:]] for c in cells]
+
+
+MULTI_KINDS = (
+    ["same"] * 3 + ["same-other-dim"] * 5 + ["new-nodes"] * 6 + ["new-nodes-other-dim"] * 8 + ["regroup"] * 5
+    + ["regroup-other-dim"] * 3 + ["other-ring"] * 3 + ["other-rep"] * 3 + ["other-type"] * 2 + ["fresh"] * 6
+    + ["fresh-other-dim"] * 6 + ["fresh-same-size"] * 4 + ["some-nodes-same-cells"] * 4
+    + ["same-total-other-counts"] * 2
+    # the writer re-uses the node variable of other cells / other rings (open finding): kept rare
+    + ["same-nodes-other-cells"] + ["same-nodes-other-ring"] + ["some-nodes-other-cells"]
+)
+
+
+def gen_multi(rng):
+    """2-3 geometry fields for ONE cfdm.write call: the later fields are variations of an earlier one
+    (same / other cell dimension name, same / other node values, same node counts with other parts,
+    other rings, other representative coordinates) or unrelated."""
+    nf = rng.choice([2, 2, 2, 3, 3])
+    base = gen_container(rng)
+    dims = ["ia", "ib", "ic"]
+    f0 = dict(cells=base["cells"], ring=base["ring"], gtype=base["gtype"], coords=base["coords"], rep=base["rep"],
+              dim="ia", nodeset=0, repset=0, gm=(1 if rng.random() < 0.15 else 0), named=rng.random() < 0.3)
+    if rng.random() < 0.2:
+        f0["node_props"] = rng.choice([[], ["units"], ["standard_name", "units"], ["axis"]])
+    fields, family = [f0], []
+    for j in range(1, nf):
+        src = dict(rng.choice(fields))
+        kind = rng.choice(MULTI_KINDS)
+        family.append(kind)
+        q = dict(src)
+        if "other-dim" in kind:
+            q["dim"] = dims[j]
+        if kind.startswith("new-nodes"):
+            q["nodeset"] = j
+            q["repset"] = rng.choice([src["repset"], j])
+        elif kind.startswith("regroup"):
+            q["cells"] = regroup_parts(rng, src["cells"])
+            q["ring"] = ring_for(rng, q["gtype"], q["cells"])
+            q["nodeset"] = j
+            q["repset"] = j
+        elif kind in ("some-nodes-same-cells", "some-nodes-other-cells"):
+            # one coordinate keeps the node values of the source field, the others get new ones
+            keep = rng.choice(src["coords"])
+            q["nodeset"] = {a: (ns_of(src, a) if a == keep else j) for a in src["coords"]}
+            q["repset"] = j
+            if kind == "some-nodes-other-cells":
+                q["cells"] = recount_cells(rng, src["cells"])
+                q["ring"] = ring_for(rng, q["gtype"], q["cells"])
+        elif kind == "other-ring":
+            q["gtype"] = "polygon"
+            q["ring"] = [[0] + [rng.randint(0, 1) for _ in c[1:]] for c in src["cells"]]
+            q["nodeset"] = j
+            q["repset"] = j
+        elif kind == "other-rep":
+            q["rep"] = [a for a in q["coords"] if rng.random() < 0.5]
+            q["repset"] = rng.choice([src["repset"], j])
+            q["nodeset"] = rng.choice([src["nodeset"], j])
+        elif kind == "other-type":
+            q["gtype"] = rng.choice([t for t in ("line", "polygon") if t != src["gtype"]] or ["line"])
+            q["ring"] = None
+            q["nodeset"] = rng.choice([src["nodeset"], j])
+        elif kind.startswith("fresh"):
+            b = gen_container(rng)
+            if kind == "fresh-same-size":
+                k = len(src["cells"])
+                b["cells"] = (b["cells"] * k)[:k]
+                b["ring"] = ring_for(rng, b["gtype"], b["cells"]) if b["ring"] is not None else None
+            q.update(cells=b["cells"], ring=b["ring"], gtype=b["gtype"], coords=b["coords"], rep=b["rep"],
+                     nodeset=j, repset=j)
+        elif kind == "same-nodes-other-cells":
+            q["cells"] = recount_cells(rng, src["cells"])
+            q["ring"] = ring_for(rng, q["gtype"], q["cells"])
+            q["repset"] = j
+        elif kind == "same-nodes-other-ring":
+            q["gtype"] = "polygon"
+            q["ring"] = [[0] + [rng.randint(0, 1) for _ in c[1:]] for c in src["cells"]]
+            q["repset"] = j
+        elif kind == "same-total-other-counts":
+            q["cells"] = recount_cells(rng, src["cells"])
+            q["ring"] = ring_for(rng, q["gtype"], q["cells"])
+            q["nodeset"] = j
+            q["repset"] = j
+        if rng.random() < 0.1:
+            q["gm"] = rng.choice([0, 1, 2])
+        fields.append(q)
+    for q in fields:
+        if isinstance(q["nodeset"], dict):
+            q["nodeset"] = {a: q["nodeset"].get(a, 0) for a in q["coords"]}
+    return dict(fields=fields, family=family, check_gm_absent=rng.random() < 0.04)
+
+
+def _writes_pnc(fl):
+    return max(len(c) for c in fl["cells"]) > 1 or fl["ring"] is not None
+
+
+def shared_dimension_other_counts(fields):
+    """Two of the fields end up in containers that share a node dimension (equal number of nodes)
+    or, with interior rings, a part dimension (equal number of parts) while their counts or ring
+    variables differ: cfdm.read keeps one set of ragged-array parameters per dimension (open
+    finding read-containers-sharing-a-node-or-part-dimension)."""
+    for i, a in enumerate(fields):
+        for b in fields[i + 1:]:
+            same_struct = a["cells"] == b["cells"]
+            if sum(map(sum, a["cells"])) == sum(map(sum, b["cells"])) and not same_struct:
+                return True
+            if (_writes_pnc(a) and _writes_pnc(b) and sum(map(len, a["cells"])) == sum(map(len, b["cells"]))
+                    and (a["ring"] is not None or b["ring"] is not None)
+                    and (not same_struct or (a["ring"] is not None and b["ring"] is not None and a["ring"] != b["ring"]))):
+                return True
+    return False
+
+
+def shared_nodes_other_container(fields):
+    """Two fields with some equal node coordinates (same values, same cells) whose containers differ
+    (geometry type, interior ring): the node coordinate variable is shared by two containers and
+    cfdm.read builds its coordinate construct once (open finding
+    read-node-variable-shared-by-two-containers)."""
+    for i, a in enumerate(fields):
+        for b in fields[i + 1:]:
+            if a["cells"] != b["cells"]:
+                continue
+            common = [x for x in a["coords"] if x in b["coords"] and ns_of(a, x) == ns_of(b, x)
+                      and a.get("node_props") == b.get("node_props")]
+            if common and (a["gtype"] != b["gtype"] or a["ring"] != b["ring"]):
+                return True
+    return False
+
+
+def steer_multi(rng, p):
+    """The file written by cfdm.write is always decoded independently; reading it back with
+    cfdm.read is skipped for most of the inputs that are bound to meet one of the two open
+    findings of cfdm.read about containers sharing dimensions / node variables (they stay a
+    small, still present, fraction - and have their own stream C14.mread)."""
+    prone = shared_dimension_other_counts(p["fields"]) or shared_nodes_other_container(p["fields"])
+    p["readback"] = (not prone) or rng.random() < 0.08
+    return p
+
+
 def gen(rng, tier, n):
-    n_read = int(n * 0.55)
-    n_write = int(n * 0.3)
-    n_rt = int(n * 0.15)
+    n_read = int(n * 0.36)
+    n_write = int(n * 0.17)
+    n_rt = int(n * 0.09)
+    n_multi = int(n * 0.14)
+    n_mread = int(n * 0.12)
+    n_ops = int(n * 0.12)
     for s in seed_names():
         yield mk_seed(dict(seed=s))
-    for _ in range(n_read):
-        p = gen_container(rng)
+    # counts near the limits of the count variables' storage type: bytes often (cheap), 16-bit
+    # types a few times per worker (30 000 - 130 000 nodes each)
+    n_big8 = max(4, int(n_read * 0.08))
+    n_big16 = max(2, int(n_read * 0.006))
+    bigs = [rng.choice(["i1", "u1"]) for _ in range(n_big8)] + [rng.choice(["i2", "u2"]) for _ in range(n_big16)]
+    every = max(1, n_read // max(1, len(bigs)))
+    for j in range(n_read):
+        fmt = rng.choice(["NETCDF4", "NETCDF4", "NETCDF3_CLASSIC"])
+        if j % every == 0 and bigs:
+            ctype = bigs.pop()
+            p = gen_container(rng, big=ctype)
+            if ctype[0] == "u":
+                fmt = "NETCDF4"
+            p["fmt"] = fmt
+            # the part counts are stored in the type whose limit the cell totals approach; the
+            # node counts in any type that can hold them
+            p.update(gen_int_types(rng, p, fmt))
+            p["pnc_type"] = ctype
+        else:
+            p = gen_container(rng)
+            p["fmt"] = fmt
+            p.update(gen_int_types(rng, p, fmt))
+        fit_types(p)
         p["layout"] = rng.choice(["it", "it", "ti", "i"])
-        p["fmt"] = rng.choice(["NETCDF4", "NETCDF4", "NETCDF3_CLASSIC"])
         yield mk_read(p)
     for _ in range(n_write):
         p = gen_container(rng)
@@ -169,12 +479,23 @@ def gen(rng, tier, n):
         # properties / netCDF names as a variation only
         p["named"] = rng.random() < 0.5
         p["layout"] = rng.choice(["it", "i"])
+        p["check_gm_absent"] = rng.random() < 0.03
         yield mk_write(p)
-    for _ in range(n_rt):
-        p = gen_container(rng)
+    for j in range(n_rt):
+        p = gen_container(rng, big=(rng.choice(["i1", "u1"]) if j % 12 == 5 else None))
         p["layout"] = rng.choice(["it", "ti", "i"])
         p["fmt"] = "NETCDF4"
+        p.update(gen_int_types(rng, p, "NETCDF4"))
+        if p.get("big"):
+            p["pnc_type"] = p["big"]
+        fit_types(p)
         yield mk_rt(p)
+    for _ in range(n_multi):
+        yield mk_multi(steer_multi(rng, gen_multi(rng)))
+    for _ in range(n_mread):
+        yield mk_mread(gen_mread(rng))
+    for _ in range(n_ops):
+        yield mk_ops(gen_ops(rng))
 
 
 def enc_cells(cells):
@@ -193,6 +514,15 @@ def _tags(stream, p):
         f"{stream}:ncoords={len(p['coords'])}",
         f"{stream}:nrep={len(p['rep'])}",
     ]
+    if stream in ("read", "rt"):
+        t.append(f"{stream}:node_count_type={p.get('nc_type', 'i4') if p['use_nc'] else '-'}")
+        t.append(f"{stream}:part_node_count_type={p.get('pnc_type', 'i4') if p['use_pnc'] else '-'}")
+        if p["ring"] is not None:
+            t.append(f"{stream}:interior_ring_type={p.get('ring_type', 'i4')}")
+        if p["use_pnc"]:
+            top = INT_MAX[p.get("pnc_type", "i4")]
+            worst = max(sum(c) for c in p["cells"] if len(c) > 1) if any(len(c) > 1 for c in p["cells"]) else 0
+            t.append(f"{stream}:multi-part-cell-total-beyond-part-count-type={'y' if worst > top else 'n'}")
     return t
 
 
@@ -209,7 +539,8 @@ def mk_read(p):
     pnc = fmt_list([v for c in cells for v in c]) if p["use_pnc"] else "-"
     ring = fmt_list([v for c in p["ring"] for v in c]) if p["ring"] is not None else "-"
     line = f"C14.read ncells={len(cells)} nnodes={nn} nc={nc} pnc={pnc} ring={ring}"
-    key = f"{line} {p['gtype']} {p['coords']} {p['rep']} {p['layout']}"
+    key = (f"{line} {p['gtype']} {p['coords']} {p['rep']} {p['layout']} "
+           f"{p.get('nc_type')} {p.get('pnc_type')} {p.get('ring_type')}")
     return Case("C14.read", p, line, key=key, nontrivial=_nontrivial(p), tags=_tags("read", p))
 
 
@@ -223,7 +554,7 @@ def mk_write(p):
 
 def mk_rt(p):
     p = dict(p)
-    key = f"rt {enc_cells(p['cells'])} {p['ring']} {p['gtype']} {p['use_nc']} {p['use_pnc']} {p['coords']} {p['rep']} {p['layout']}"
+    key = f"rt {enc_cells(p['cells'])} {p['ring']} {p['gtype']} {p['use_nc']} {p['use_pnc']} {p['coords']} {p['rep']} {p['layout']} {p.get('nc_type')} {p.get('pnc_type')} {p.get('ring_type')}"
     return Case("C14.rt", p, None, key=key, nontrivial=_nontrivial(p), tags=_tags("rt", p))
 
 
@@ -232,7 +563,8 @@ def mk_seed(p):
 
 
 def from_payload(stream, payload):
-    return {"C14.read": mk_read, "C14.write": mk_write, "C14.rt": mk_rt, "C14.seed": mk_seed}[stream](payload)
+    return {"C14.read": mk_read, "C14.write": mk_write, "C14.rt": mk_rt, "C14.seed": mk_seed,
+            "C14.multi": mk_multi, "C14.mread": mk_mread, "C14.ops": mk_ops}[stream](payload)
 
 
 # ---------------------------------------------------------------- hand encoder (netCDF4 only)
@@ -276,16 +608,16 @@ def hand_encode(path, p):
     if repnames:
         gc.coordinates = " ".join(repnames)
     if p["use_nc"]:
-        v = n.createVariable("node_count", "i4", ("instance",))
+        v = n.createVariable("node_count", p.get("nc_type", "i4"), ("instance",))
         v[...] = [sum(c) for c in cells]
         gc.node_count = "node_count"
     if p["use_pnc"]:
         n.createDimension("part", npart)
-        v = n.createVariable("part_node_count", "i4", ("part",))
+        v = n.createVariable("part_node_count", p.get("pnc_type", "i4"), ("part",))
         v[...] = [x for c in cells for x in c]
         gc.part_node_count = "part_node_count"
     if p["ring"] is not None:
-        v = n.createVariable("interior_ring", "i4", ("part",))
+        v = n.createVariable("interior_ring", p.get("ring_type", "i4"), ("part",))
         v[...] = [x for c in p["ring"] for x in c]
         gc.interior_ring = "interior_ring"
     dims = {"it": ("instance", "time"), "ti": ("time", "instance"), "i": ("instance",)}[layout]
@@ -301,12 +633,107 @@ def hand_encode(path, p):
     n.close()
 
 
-def abstract_file(path):
-    """Everything an independent decoder needs, read with netCDF4 only."""
+def hand_encode_multi(path, p):
+    """Several geometry containers / data variables in one file, by the letter of CF 7.5.
+
+    p["containers"][j]: a container description as for `hand_encode` plus `inst` / `node` / `part`
+    (index of the container whose instance / node / part dimension it uses: itself, or an earlier
+    container with the same size), `nodes_of` (index of an earlier container whose node coordinate
+    VARIABLES it names, or None), `gm` (grid mapping on the container), `node_atts` (attributes of
+    the node coordinate variables).  p["vars"][i]: the container of data variable pr<i>.
+    p["grouped"]: everything lives in the group /g1."""
     import netCDF4
 
-    n = netCDF4.Dataset(path)
-    n.set_auto_maskandscale(False)
+    root = netCDF4.Dataset(path, "w", format="NETCDF4")
+    root.Conventions = "CF-1.11"
+    n = root.createGroup("g1") if p.get("grouped") else root
+    made = set()
+
+    def dim(name, size):
+        if name not in made:
+            n.createDimension(name, size)
+            made.add(name)
+        return name
+
+    for j, q in enumerate(p["containers"]):
+        cells = q["cells"]
+        ncells = len(cells)
+        nn = sum(sum(c) for c in cells)
+        npart = sum(len(c) for c in cells)
+        inst = dim(f"inst{q.get('inst', j)}", ncells)
+        node_dim = dim(f"node{q.get('node', j)}", nn) if q["use_nc"] else inst
+        src = q.get("nodes_of")
+        names = {}
+        for k, a in enumerate(q["coords"]):
+            if src is not None:
+                names[a] = f"{a}{src}"
+                continue
+            names[a] = f"{a}{j}"
+            v = n.createVariable(names[a], "f8", (node_dim,))
+            for att, val in zip(("standard_name", "units", "axis"), STD[a][:3]):
+                if att in q.get("node_atts", ("standard_name", "units", "axis")):
+                    v.setncattr(att, val)
+            v[...] = np.arange(nn) + 1000.0 * k + NODESET * j
+        repnames = []
+        for a in q["rep"]:
+            nm = f"{STD[a][3]}{j}"
+            v = n.createVariable(nm, "f8", (inst,))
+            v.standard_name, v.units = STD[a][:2]
+            v.nodes = names[a]
+            v[...] = np.arange(ncells) * 10.0 + 5.0 + 100.0 * j
+            repnames.append(nm)
+        gc = n.createVariable(f"gc{j}", "i4", ())
+        gc.geometry_type = q["gtype"]
+        gc.node_coordinates = " ".join(names[a] for a in q["coords"])
+        if repnames:
+            gc.coordinates = " ".join(repnames)
+        if q.get("gm"):
+            if "crs" not in n.variables:
+                crs = n.createVariable("crs", "i4", ())
+                crs.grid_mapping_name = "latitude_longitude"
+                crs.semi_major_axis = 6378137.0
+            gc.grid_mapping = "crs"
+        if q["use_nc"]:
+            v = n.createVariable(f"node_count{j}", q.get("nc_type", "i4"), (inst,))
+            v[...] = [sum(c) for c in cells]
+            gc.node_count = f"node_count{j}"
+        if q["use_pnc"]:
+            part = dim(f"part{q.get('part', j)}", npart)
+            v = n.createVariable(f"part_node_count{j}", q.get("pnc_type", "i4"), (part,))
+            v[...] = [x for c in cells for x in c]
+            gc.part_node_count = f"part_node_count{j}"
+            if q["ring"] is not None:
+                v = n.createVariable(f"interior_ring{j}", q.get("ring_type", "i4"), (part,))
+                v[...] = [x for c in q["ring"] for x in c]
+                gc.interior_ring = f"interior_ring{j}"
+        q["_rep"] = repnames
+        q["_inst"] = inst
+    for i, j in enumerate(p["vars"]):
+        q = p["containers"][j]
+        pr = n.createVariable(f"pr{i}", "f8", (q["_inst"],))
+        pr.standard_name = "precipitation_amount"
+        pr.units = "kg m-2"
+        pr.long_name = f"variable {i}"
+        if q["_rep"]:
+            pr.coordinates = " ".join(q["_rep"])
+        if q.get("gm"):
+            pr.grid_mapping = "crs"
+        pr.geometry = f"gc{j}"
+        pr[...] = np.arange(len(q["cells"])) + 100.0 * i
+    for q in p["containers"]:
+        q.pop("_rep", None)
+        q.pop("_inst", None)
+    root.close()
+
+
+def abstract_file(path, group=None):
+    """Everything an independent decoder needs, read with netCDF4 only (of one group, if given:
+    a group whose references all stay inside it is a dataset of its own)."""
+    import netCDF4
+
+    root = netCDF4.Dataset(path)
+    root.set_auto_maskandscale(False)
+    n = root[group] if group else root
     out = dict(dims={k: len(v) for k, v in n.dimensions.items()}, vars={})
     for k, v in n.variables.items():
         atts = {}
@@ -317,7 +744,7 @@ def abstract_file(path):
         if v.dtype.kind in "iuf":
             vals = np.asarray(v[...]).tolist()
         out["vars"][k] = dict(dims=list(v.dimensions), atts=atts, vals=vals)
-    n.close()
+    root.close()
     return out
 
 
@@ -326,8 +753,12 @@ class Undecodable(Exception):
     pass
 
 
-def cf75_decode(af, container):
+def cf75_decode(af, container, data_dims=None):
     """Decode a geometry container of an abstract file by the text of CF 7.5.
+
+    `data_dims`: the dimensions of the data variable that references the container; the
+    node_count variable (or, without one, the node coordinate variables) must then have one of
+    them - the geometry dimension - as single dimension.
 
     Returns dict(type, cells={node var: [[[values]]]}, ring=[[flags]] or None, ncells).
     """
@@ -349,8 +780,17 @@ def cf75_decode(af, container):
         if atts["node_count"] not in V:
             raise Undecodable("node_count variable missing")
         nc = [int(x) for x in V[atts["node_count"]]["vals"]]
+        ncd = V[atts["node_count"]]["dims"]
+        if len(ncd) != 1:
+            raise Undecodable(f"node_count variable has dimensions {ncd}")
+        if data_dims is not None and ncd[0] not in data_dims:
+            raise Undecodable(f"node_count variable {atts['node_count']}({ncd[0]}) does not span the geometry "
+                              f"dimension of its data variable {tuple(data_dims)}")
     else:
         nc = [1] * total
+        if data_dims is not None and node_dim not in data_dims:
+            raise Undecodable(f"no node_count and the node dimension {node_dim} is not a dimension of the data "
+                              f"variable {tuple(data_dims)}")
     if sum(nc) != total or any(x < 1 for x in nc):
         raise Undecodable(f"node_count {nc} inconsistent with {total} nodes")
     if "part_node_count" in atts:
@@ -499,14 +939,22 @@ def impl_read(c):
 
 # ---------------------------------------------------------------- implementation: write half
 def build_field(p):
-    """A geometry field built through the public API only (no file)."""
+    """A geometry field built through the public API only (no file).
+
+    Optional keys of `p` (multi-field writes): `dim` netCDF name asked for the cell axis, `var`
+    netCDF name of the data variable, `nodeset` / `repset` shift of the node / representative
+    values (fields with the same shift have equal node coordinates), `node_props` which of
+    standard_name / units / axis the node coordinates carry, `gm` a grid mapping whose
+    coordinates are the geometry coordinates."""
     C = cfdm()
     cells = p["cells"]
     ncells = len(cells)
     f = C.Field(properties={"standard_name": "precipitation_amount", "units": "kg m-2"})
-    f.nc_set_variable("pr")
+    f.nc_set_variable(p.get("var", "pr"))
+    if p.get("long_name"):
+        f.set_property("long_name", p["long_name"])
     ai = f.set_construct(C.DomainAxis(ncells))
-    f.domain_axes(todict=True)[ai].nc_set_dimension("instance")
+    f.domain_axes(todict=True)[ai].nc_set_dimension(p.get("dim", "instance"))
     axes = [ai]
     if "t" in p.get("layout", "i"):
         at = f.set_construct(C.DomainAxis(2))
@@ -517,28 +965,26 @@ def build_field(p):
         axes.append(at)
     shape = [ncells] + ([2] if len(axes) == 2 else [])
     f.set_data(C.Data(np.arange(int(np.prod(shape)), dtype=float).reshape(shape)), axes=axes)
-    # node offsets in file order
-    off = 0
-    idcells = []
-    for c in cells:
-        cc = []
-        for m in c:
-            cc.append(list(range(off, off + m)))
-            off += m
-        idcells.append(cc)
-    shp, flat = pad3(idcells)
+    shp, flat = pad3(id_cells(cells))
     mask = np.array([x is None for x in flat]).reshape(shp)
     base = np.array([0 if x is None else x for x in flat], dtype=float).reshape(shp)
+    rep_shift = 100.0 * p.get("repset", 0)
+    node_props = p.get("node_props", ["standard_name", "units", "axis"])
+    keys = []
     for k, a in enumerate(p["coords"]):
+        if p.get("abs_k"):
+            # multi-field writes: the value offset names the coordinate (x, y, z), not its position
+            k = {"x": 0, "y": 1, "z": 2}[a]
         sn, un, ax, nm = STD[a]
         aux = C.AuxiliaryCoordinate(properties={"standard_name": sn, "units": un})
-        b = C.Bounds(data=C.Data(np.ma.array(base + 1000.0 * k, mask=mask)))
-        b.set_properties({"standard_name": sn, "units": un, "axis": ax})
+        b = C.Bounds(data=C.Data(np.ma.array(base + 1000.0 * k + NODESET * ns_of(p, a), mask=mask)))
+        full = {"standard_name": sn, "units": un, "axis": ax}
+        b.set_properties({q: full[q] for q in node_props})
         b.nc_set_variable(a)
         aux.set_bounds(b)
         aux.set_geometry(p["gtype"])
         if a in p["rep"]:
-            aux.set_data(C.Data(np.arange(ncells) * 10.0 + 5.0))
+            aux.set_data(C.Data(np.arange(ncells) * 10.0 + 5.0 + rep_shift))
             aux.nc_set_variable(nm)
         if p["ring"] is not None:
             rs, rflat = pad2(p["ring"])
@@ -556,8 +1002,19 @@ def build_field(p):
             pncp.nc_set_variable("part_node_count")
             pncp.nc_set_dimension("part")
             aux.set_part_node_count(pncp)
-        f.set_construct(aux, axes=[ai])
+        keys.append(f.set_construct(aux, axes=[ai]))
+    if p.get("gm"):
+        cr = C.CoordinateReference(
+            coordinates=keys,
+            coordinate_conversion=C.CoordinateConversion(parameters={"grid_mapping_name": "latitude_longitude"}),
+            datum=C.Datum(parameters={"semi_major_axis": 6378137.0 + p.get("gm", 1)}),
+        )
+        cr.nc_set_variable("crs")
+        f.set_construct(cr)
     return f
+
+
+NODESET = 100000.0
 
 
 def container_of(af):
@@ -718,6 +1175,788 @@ def impl_seed(c):
             os.remove(path)
 
 
+# ---------------------------------------------------------------- several geometry fields in one cfdm.write
+KIDX = {"x": 0, "y": 1, "z": 2}
+
+
+def ns_of(fl, a):
+    """Node set of coordinate `a` of a field: `nodeset` is one number for all coordinates or a
+    {coordinate: number} dictionary."""
+    ns = fl.get("nodeset", 0)
+    return ns.get(a, 0) if isinstance(ns, dict) else ns
+
+
+def render_multi(fields):
+    """Canonical text of the geometry variables of a multi-field file: netCDF names are not part of
+    the observable, so dimensions / variables / containers are numbered D0.., V0.., G0.. in the
+    order in which a fixed traversal meets them (fields in write order; cell dimension, node
+    variables by coordinate, node_count, part_node_count, interior_ring, representative
+    coordinates, container).
+
+    `fields`: per field dict(cell=(dim, size), type, coords=[(k, var, dim, digest)], nc=(var, dim,
+    values) | None, pnc=..., ring=..., rep=[(k, var)], gm, gc) with arbitrary hashable keys."""
+    D, V, G = {}, {}, {}
+
+    def num(tab, pre, key):
+        if key not in tab:
+            tab[key] = f"{pre}{len(tab)}"
+        return tab[key]
+
+    out = []
+    for f in fields:
+        if isinstance(f, str):
+            out.append(f)
+            continue
+        t = [f"cell={num(D, 'D', f['cell'][0])}:{f['cell'][1]}", f"type={f['type']}"]
+        for k, var, dim, digest in f["coords"]:
+            t.append(f"{'xyz'[k]}={num(V, 'V', var)}@{num(D, 'D', dim)}{{{digest}}}")
+        for role in ("nc", "pnc", "ring"):
+            x = f[role]
+            if x is None:
+                t.append(f"{role}=-")
+            else:
+                var, dim, vals = x
+                t.append(f"{role}={num(V, 'V', var)}@{num(D, 'D', dim)}{fmt_list(vals)}")
+        t.append("rep=" + (",".join(f"{'xyz'[k]}:{num(V, 'V', var)}" for k, var in f["rep"]) or "-"))
+        t.append(f"gm={f['gm']}")
+        t.append(f"gc={num(G, 'G', f['gc'])}")
+        out.append(" ".join(t))
+    return " | ".join(out)
+
+
+def node_digest(vals):
+    """(node set, coordinate, number of nodes) of a node coordinate variable written by build_field."""
+    v0 = float(vals[0])
+    ns = int(v0 // NODESET)
+    k = int((v0 - ns * NODESET) // 1000)
+    return ns, k, len(vals)
+
+
+def struct_of_file(af, nfields):
+    """The geometry variables of the file, per data variable f0, f1, ... (netCDF4 view only)."""
+    V = af["vars"]
+    out = []
+    for i in range(nfields):
+        name = f"f{i}"
+        if name not in V:
+            out.append(f"missing:{name}")
+            continue
+        dv = V[name]
+        g = dv["atts"].get("geometry")
+        if not isinstance(g, str) or g not in V:
+            out.append(f"no-container:{name}")
+            continue
+        atts = V[g]["atts"]
+        cell = dv["dims"][0] if dv["dims"] else None
+        coords = []
+        for nm in str(atts.get("node_coordinates", "")).split():
+            if nm not in V or not V[nm]["vals"]:
+                coords.append((9, nm, None, "missing"))
+                continue
+            ns, k, n = node_digest(V[nm]["vals"])
+            coords.append((k, nm, V[nm]["dims"][0], f"s{ns}n{n}"))
+        coords.sort(key=lambda t: t[0])
+
+        def role(att):
+            nm = atts.get(att)
+            if not isinstance(nm, str):
+                return None
+            if nm not in V:
+                return (nm, None, [])
+            return (nm, V[nm]["dims"][0] if V[nm]["dims"] else None, [int(x) for x in V[nm]["vals"]])
+
+        rep = []
+        cs = atts.get("coordinates")
+        for nm in (cs.split() if isinstance(cs, str) else []):
+            nodes = V.get(nm, {}).get("atts", {}).get("nodes")
+            k = next((kk for kk, var, _, _ in coords if var == nodes), 9)
+            rep.append((k, nm))
+        rep.sort()
+        gm = atts.get("grid_mapping")
+        gmv = 0
+        if isinstance(gm, str) and gm in V:
+            a = V[gm]["atts"].get("semi_major_axis")
+            gmv = int(round(float(a) - 6378137.0)) if a is not None else -1
+        out.append(dict(cell=(cell, af["dims"].get(cell)), type=atts.get("geometry_type"), coords=coords,
+                        nc=role("node_count"), pnc=role("part_node_count"), ring=role("interior_ring"),
+                        rep=rep, gm=gmv, gc=g))
+    return out
+
+
+def enc_field(fl, dim_ids):
+    """One field of a multi-field write as a protocol token:
+    dim/type/cells/ring/coords/rep/nodesets/repset/props/gm"""
+    ring = enc_cells(fl["ring"]) if fl["ring"] is not None else "-"
+    props = sum(1 << i for i, q in enumerate(("standard_name", "units", "axis"))
+                if q in fl.get("node_props", ["standard_name", "units", "axis"]))
+    ks = lambda names: ("[" + ",".join(str(KIDX[a]) for a in names) + "]")
+    nss = "[" + ",".join(str(ns_of(fl, a)) for a in fl["coords"]) + "]"
+    return "/".join([str(dim_ids[fl["dim"]]), {"point": "0", "line": "1", "polygon": "2"}[fl["gtype"]],
+                     enc_cells(fl["cells"]), ring, ks(fl["coords"]), ks(fl["rep"]), nss,
+                     str(fl.get("repset", 0)), str(props), str(fl.get("gm", 0))])
+
+
+def mk_multi(p):
+    p = dict(p)
+    fields = p["fields"]
+    dim_ids = {}
+    for fl in fields:
+        dim_ids.setdefault(fl["dim"], len(dim_ids))
+    line = f"C14.multi nf={len(fields)} " + " ".join(f"f{i}={enc_field(fl, dim_ids)}" for i, fl in enumerate(fields))
+    tags = [f"multi:fields={len(fields)}", f"multi:readback={'y' if p.get('readback', True) else 'n'}"]
+    tags += [f"multi:{t}" for t in sorted(set(p.get("family", [])))]
+    tags += [f"multi:type={fl['gtype']}" for fl in fields]
+    if len({fl["dim"] for fl in fields}) > 1:
+        tags.append("multi:several-dimension-names")
+    if any(fl.get("gm") for fl in fields):
+        tags.append("multi:grid-mapping")
+    nontrivial = len(fields) > 1
+    return Case("C14.multi", p, line, key=line, nontrivial=nontrivial, tags=tags)
+
+
+def observe_multi_field(f, fl):
+    """Bounds / ring / shape of one field read back, per coordinate (values as node offsets)."""
+    obs = {}
+    auxs = f.auxiliary_coordinates(todict=True)
+    for a in fl["coords"]:
+        k = KIDX[a]
+        shift = NODESET * ns_of(fl, a)
+        found = []
+        for c in auxs.values():
+            if not c.has_bounds():
+                continue
+            b = c.bounds.array
+            vals = np.ma.compressed(b)
+            if vals.size and node_digest(vals)[1] == k:
+                found.append((c, b))
+        if len(found) != 1:
+            obs[a] = dict(error=f"{len(found)} coordinates carry the {a} nodes")
+            continue
+        c, b = found[0]
+        o = dict(shape=list(b.shape), b=flat_masked(b, 1000.0 * k + shift), cshape=list(c.shape),
+                 type=c.get_geometry(None), has_data=c.has_data(),
+                 data=(np.asarray(c.array).tolist() if c.has_data() else None), ring=None)
+        if c.has_interior_ring():
+            r = c.get_interior_ring().array
+            o["ring_shape"] = list(r.shape)
+            o["ring"] = flat_masked(r)
+        obs[a] = o
+    return obs
+
+
+def impl_multi(c):
+    C = cfdm()
+    p = c.payload
+    path = tmpfile("m")
+    c.extra = dict(file=None, back=None)
+    try:
+        fs = []
+        for i, fl in enumerate(p["fields"]):
+            q = dict(fl)
+            q["var"] = f"f{i}"
+            q["layout"] = "i"
+            q["abs_k"] = True
+            fs.append(build_field(q))
+        try:
+            C.write(fs, path)
+        except Exception as e:
+            return "raised:" + fw.exc_enum(e)
+        af = abstract_file(path)
+        c.extra["file"] = af
+        if not p.get("readback", True):
+            c.extra["back"] = "skipped"
+            return render_multi(struct_of_file(af, len(p["fields"])))
+        try:
+            back = C.read(path)
+            byname = {}
+            for g in back:
+                byname.setdefault(g.nc_get_variable(None), []).append(g)
+            obs = []
+            for i, fl in enumerate(p["fields"]):
+                gs = byname.get(f"f{i}", [])
+                obs.append(observe_multi_field(gs[0], fl) if len(gs) == 1 else dict(error=f"{len(gs)} fields f{i} read back"))
+            c.extra["back"] = obs
+        except Exception as e:
+            c.extra["back"] = "raised:" + fw.exc_enum(e)
+        return render_multi(struct_of_file(af, len(p["fields"])))
+    finally:
+        if os.path.exists(path):
+            os.remove(path)
+
+
+def oracle_multi(c):
+    """Every written container, decoded by the text of CF 7.5, must give the cells of the field whose
+    data variable references it; its node_count must span that data variable's cell dimension; and
+    cfdm.read must present each field's own cells."""
+    p = c.payload
+    ex = c.extra if isinstance(c.extra, dict) else {}
+    if str(c.impl_out).startswith("raised"):
+        return f"cfdm.write {c.impl_out} on valid geometry fields"
+    af = ex.get("file")
+    if af is None:
+        return "no file written"
+    V = af["vars"]
+    for i, fl in enumerate(p["fields"]):
+        name = f"f{i}"
+        if name not in V:
+            return f"{name}: data variable missing"
+        dv = V[name]
+        g = dv["atts"].get("geometry")
+        if not isinstance(g, str):
+            return f"{name}: no geometry attribute"
+        try:
+            dec = cf75_decode(af, g, data_dims=dv["dims"])
+        except Undecodable as e:
+            return f"{name}: container {g} is not decodable by CF 7.5: {e}"
+        if dec["type"] != fl["gtype"]:
+            return f"{name}: geometry_type {dec['type']} != {fl['gtype']}"
+        if dec["ncells"] != len(fl["cells"]):
+            return f"{name}: {dec['ncells']} cells decoded, the field has {len(fl['cells'])}"
+        want = id_cells(fl["cells"])
+        seen_k = []
+        for a in dec["node_vars"]:
+            ns, k, n = node_digest(V[a]["vals"])
+            seen_k.append(k)
+            shift = NODESET * ns_of(fl, "xyz"[k]) if "xyz"[k] in fl["coords"] else 0.0
+            got = [[[x - 1000.0 * k - shift for x in part] for part in cell] for cell in dec["cells"][a]]
+            if got != want:
+                return f"{name}: node variable {a}: decoded cells {_short_cells(got)} are not the field's {_short_cells(want)}"
+        if sorted(seen_k) != sorted(KIDX[a] for a in fl["coords"]):
+            return f"{name}: node coordinate variables {dec['node_vars']} are not the field's {fl['coords']}"
+        # properties of the node coordinates: the bounds' own ones, possibly completed by those they
+        # inherit from the coordinate (standard_name, units); never another value
+        own = fl.get("node_props", ["standard_name", "units", "axis"])
+        for a in dec["node_vars"]:
+            k = node_digest(V[a]["vals"])[1]
+            full = dict(zip(("standard_name", "units", "axis"), STD["xyz"[k]][:3]))
+            atts = {q: v for q, v in V[a]["atts"].items() if q in full}
+            if any(atts[q] != full[q] for q in atts) or any(q not in atts for q in own) or \
+                    any(q not in own and q not in ("standard_name", "units") for q in atts):
+                return f"{name}: node variable {a} has attributes {atts}, the node coordinates' properties are {own} of {full}"
+        if fl["ring"] is None:
+            if dec["ring"] is not None:
+                return f"{name}: interior ring invented"
+        elif dec["ring"] != fl["ring"]:
+            return f"{name}: interior ring {dec['ring']} != {fl['ring']}"
+        # representative coordinates named by the container
+        cs = V[g]["atts"].get("coordinates")
+        reps = cs.split() if isinstance(cs, str) else []
+        want_rep = [10.0 * j + 5.0 + 100.0 * fl.get("repset", 0) for j in range(len(fl["cells"]))]
+        got_k = []
+        for nm in reps:
+            if nm not in V:
+                return f"{name}: container names a missing coordinate {nm}"
+            nodes = V[nm]["atts"].get("nodes")
+            if nodes not in dec["node_vars"]:
+                return f"{name}: representative coordinate {nm} has nodes={nodes!r}, not a node variable of {g}"
+            got_k.append(node_digest(V[nodes]["vals"])[1])
+            if V[nm]["dims"] != [dv["dims"][0]] or V[nm]["vals"] != want_rep:
+                return f"{name}: representative coordinate {nm} changed"
+        if sorted(got_k) != sorted(KIDX[a] for a in fl["rep"]):
+            return f"{name}: representative coordinates {reps} do not match the field's {fl['rep']}"
+        # grid mapping on the container
+        gm = V[g]["atts"].get("grid_mapping")
+        if fl.get("gm"):
+            if not isinstance(gm, str) or gm not in V or "grid_mapping_name" not in V[gm]["atts"]:
+                return f"{name}: container grid_mapping {gm!r} does not name a grid mapping variable"
+            if dv["atts"].get("grid_mapping") != gm:
+                return f"{name}: data variable grid_mapping {dv['atts'].get('grid_mapping')!r} != container's {gm!r}"
+        elif p.get("check_gm_absent") and gm is not None:
+            return f"{name}: container has a grid_mapping attribute {gm!r} but the field has no grid mapping"
+    back = ex.get("back")
+    if back == "skipped":
+        return None
+    if isinstance(back, str):
+        return f"cfdm.read of the written file {back}"
+    for i, (fl, obs) in enumerate(zip(p["fields"], back or [])):
+        if "error" in obs and isinstance(obs.get("error"), str):
+            return f"f{i}: read back: {obs['error']}"
+        shp, flat = pad3(id_cells(fl["cells"]))
+        for a in fl["coords"]:
+            o = obs[a]
+            if "error" in o:
+                return f"f{i}: read back: {o['error']}"
+            if o["shape"] != shp or o["b"] != flat:
+                return f"f{i}: read back: {a}: bounds shape {o['shape']} are not the field's cells {shp}" if o["shape"] != shp \
+                    else f"f{i}: read back: {a}: bounds are not the field's cells"
+            if o["cshape"] != [len(fl["cells"])] or o["type"] != fl["gtype"]:
+                return f"f{i}: read back: {a}: shape {o['cshape']} / type {o['type']}"
+            if o["has_data"] != (a in fl["rep"]):
+                return f"f{i}: read back: {a}: representative coordinate presence"
+            if fl["ring"] is None:
+                if o["ring"] is not None:
+                    return f"f{i}: read back: {a}: interior ring invented"
+            else:
+                rs, rflat = pad2(fl["ring"])
+                if o["ring"] is None or o["ring_shape"] != rs or o["ring"] != rflat:
+                    return f"f{i}: read back: {a}: interior ring differs"
+    return None
+
+
+def _short_cells(cells):
+    return [[len(p_) for p_ in c] for c in cells]
+
+
+# ---------------------------------------------------------------- several containers in one hand-encoded file
+def gen_mread(rng):
+    """1-3 geometry containers and 1-4 data variables in one file: containers with their own
+    dimensions (the usual case), sharing the instance dimension, in a group, with a grid mapping,
+    with node coordinate variables that carry any subset of standard_name / units / axis; rarely
+    sharing a node / part dimension with other counts, or naming the node coordinate variables
+    of another container (open findings of cfdm.read)."""
+    nc_ = rng.choice([1, 2, 2, 2, 3])
+    conts = []
+    fam = []
+    for j in range(nc_):
+        q = gen_container(rng, big=(rng.choice(["i1", "u1"]) if rng.random() < 0.04 else None))
+        q.update(gen_int_types(rng, q, "NETCDF4"))
+        if q.get("big"):
+            q["pnc_type"] = q["big"]
+        q["fmt"] = "NETCDF4"
+        fit_types(q)
+        q["gm"] = rng.random() < 0.15
+        if rng.random() < 0.3:
+            q["node_atts"] = rng.choice([[], ["units"], ["standard_name", "units"], ["axis"], ["standard_name"]])
+        if j > 0:
+            r = rng.random()
+            src = rng.randrange(j)
+            o = conts[src]
+            if r < 0.25:
+                # the same number of cells on the same instance dimension (other dimensions own)
+                k = len(o["cells"])
+                q["cells"] = (q["cells"] * k)[:k]
+                if q["ring"] is not None:
+                    q["ring"] = (q["ring"] * k)[:k]
+                fit_types(q)
+                q["inst"] = o.get("inst", src)
+                fam.append("same-instance-dimension")
+            elif r < 0.32:
+                # identical counts on shared node / part / instance dimensions: consistent sharing
+                for key in ("cells", "ring", "use_nc", "use_pnc", "nc_type", "pnc_type", "ring_type"):
+                    q[key] = o[key]
+                q["gtype"] = o["gtype"] if o["ring"] is not None else q["gtype"] if q["gtype"] != "polygon" or True else "line"
+                if q["gtype"] == "point" and (o["use_pnc"] and any(v > 1 for c in o["cells"] for v in c)):
+                    q["gtype"] = "line"
+                q["inst"], q["node"], q["part"] = o.get("inst", src), o.get("node", src), o.get("part", src)
+                fam.append("shared-dimensions-same-counts")
+            elif r < 0.345 and o["use_nc"]:
+                # the same nodes divided into other cells, on the same node dimension (open finding)
+                q["cells"] = recount_cells(rng, o["cells"])
+                q["use_nc"], q["use_pnc"] = True, True
+                if q["gtype"] == "point":
+                    q["gtype"] = "line"
+                q["ring"] = ring_for(rng, q["gtype"], q["cells"])
+                fit_types(q)
+                q["node"] = o.get("node", src)
+                if o["use_pnc"]:
+                    q["part"] = o.get("part", src)
+                fam.append("shared-node-dimension-other-counts")
+            elif r < 0.365 and o.get("nodes_of") is None and o["gtype"] != "point":
+                # another container for the same node coordinate VARIABLES, of another type (open finding)
+                for key in ("cells", "use_nc", "use_pnc", "nc_type", "pnc_type", "ring_type", "coords"):
+                    q[key] = o[key]
+                q["ring"] = None
+                q["rep"] = []
+                q["gtype"] = "line" if o["gtype"] == "polygon" else "polygon"
+                q["inst"], q["node"], q["part"] = o.get("inst", src), o.get("node", src), o.get("part", src)
+                q["nodes_of"] = src
+                fam.append("shared-node-variables-other-type")
+        conts.append(q)
+    nv = rng.choice([nc_, nc_, nc_ + 1])
+    vars_ = list(range(nc_)) + [rng.randrange(nc_) for _ in range(nv - nc_)]
+    rng.shuffle(vars_)
+    grouped = rng.random() < 0.15
+    if grouped:
+        fam.append("grouped")
+    if any(q["gm"] for q in conts):
+        fam.append("grid-mapping")
+    if len(set(vars_)) < len(vars_):
+        fam.append("data-variables-sharing-a-container")
+    return dict(containers=conts, vars=vars_, grouped=grouped, family=fam)
+
+
+def read_tokens(q):
+    cells = q["cells"]
+    nn = sum(sum(c) for c in cells)
+    nc = fmt_list([sum(c) for c in cells]) if q["use_nc"] else "-"
+    pnc = fmt_list([v for c in cells for v in c]) if q["use_pnc"] else "-"
+    ring = fmt_list([v for c in q["ring"] for v in c]) if q["ring"] is not None else "-"
+    return len(cells), nn, nc, pnc, ring
+
+
+def mk_mread(p):
+    p = dict(p)
+    toks = []
+    for j, q in enumerate(p["containers"]):
+        toks.append(f"c{j}=" + "/".join(str(t) for t in read_tokens(q)))
+    line = f"C14.mread n={len(p['containers'])} " + " ".join(toks) + " vars=" + fmt_list(p["vars"])
+    key = line + " " + json_key([(q["gtype"], q["coords"], q["rep"], q.get("inst"), q.get("node"), q.get("part"),
+                                  q.get("nodes_of"), q.get("gm"), q.get("node_atts"), q.get("nc_type"),
+                                  q.get("pnc_type"), q.get("ring_type")) for q in p["containers"]]) + str(p.get("grouped"))
+    tags = [f"mread:containers={len(p['containers'])}", f"mread:variables={len(p['vars'])}"]
+    tags += [f"mread:{t}" for t in sorted(set(p.get("family", [])))]
+    for q in p["containers"]:
+        tags.append(f"mread:type={q['gtype']}")
+    nontrivial = len(p["containers"]) > 1 or _nontrivial(p["containers"][0])
+    return Case("C14.mread", p, line, key=key, nontrivial=nontrivial, tags=tags)
+
+
+def json_key(x):
+    import json
+    return json.dumps(x, sort_keys=True, default=str)
+
+
+def impl_mread(c):
+    C = cfdm()
+    p = c.payload
+    path = tmpfile("mr")
+    c.extra = dict(file=None, obs=None)
+    try:
+        hand_encode_multi(path, p)
+        c.extra["file"] = abstract_file(path, group=("g1" if p.get("grouped") else None))
+        try:
+            fs = C.read(path)
+        except Exception as e:
+            return "raised:" + fw.exc_enum(e)
+        by = {}
+        for f in fs:
+            by.setdefault(str(f.nc_get_variable("")).split("/")[-1], []).append(f)
+        outs, obs = [], []
+        for i, j in enumerate(p["vars"]):
+            q = p["containers"][j]
+            src = q.get("nodes_of")
+            fl = by.get(f"pr{i}", [])
+            if len(fl) != 1:
+                obs.append(dict(error=f"{len(fl)} fields for data variable pr{i}"))
+                outs.append(f"fields={len(fl)}")
+                continue
+            f = fl[0]
+            o = {}
+            auxs = f.auxiliary_coordinates(todict=True)
+            for k, a in enumerate(q["coords"]):
+                name = f"{a}{j if src is None else src}"
+                found = [x for x in auxs.values()
+                         if x.has_bounds() and str(x.bounds.nc_get_variable("")).split("/")[-1] == name]
+                if len(found) != 1:
+                    o[a] = dict(error=f"{len(found)} auxiliary coordinates carry node variable {name}")
+                    continue
+                x = found[0]
+                b = x.bounds.array
+                r = dict(shape=list(b.shape), b=flat_masked(b, 1000.0 * k + NODESET * (j if src is None else src)),
+                         cshape=list(x.shape), cndim=x.ndim, csize=x.size, type=x.get_geometry(None),
+                         has_data=x.has_data(), data=(np.asarray(x.array).tolist() if x.has_data() else None),
+                         ring=None, bprops=dict(x.bounds.properties()), cprops=dict(x.properties()))
+                if x.has_interior_ring():
+                    rr = x.get_interior_ring().array
+                    r["ring_shape"] = list(rr.shape)
+                    r["ring"] = flat_masked(rr)
+                o[a] = r
+            o["_fshape"] = list(f.shape)
+            o["_ngm"] = sum(1 for cr in f.coordinate_references(todict=True).values()
+                            if cr.coordinate_conversion.get_parameter("grid_mapping_name", None) is not None)
+            obs.append(o)
+            outs.append(canon_read({a: o[a] for a in q["coords"]}))
+        c.extra["obs"] = obs
+        return " | ".join(outs)
+    finally:
+        if os.path.exists(path):
+            os.remove(path)
+
+
+def oracle_mread(c):
+    p = c.payload
+    ex = c.extra if isinstance(c.extra, dict) else {}
+    af = ex.get("file")
+    if af is None:
+        return "no file was produced: " + str(c.impl_out)
+    decs = []
+    for j, q in enumerate(p["containers"]):
+        dec = cf75_decode(af, f"gc{j}")
+        src = q.get("nodes_of")
+        jj = j if src is None else src
+        want = id_cells(q["cells"])
+        for k, a in enumerate(q["coords"]):
+            got = [[[int(x - 1000.0 * k - NODESET * jj) for x in part] for part in cell] for cell in dec["cells"][f"{a}{jj}"]]
+            if got != want:
+                raise fw.HarnessError(f"mread: the independent decoder does not recover the generated cells of container {j}")
+        if (dec["ring"] is None) != (q["ring"] is None) or (q["ring"] is not None and dec["ring"] != q["ring"]):
+            raise fw.HarnessError(f"mread: the independent decoder does not recover the ring flags of container {j}")
+        decs.append(dec)
+    obs = ex.get("obs")
+    if obs is None:
+        return f"cfdm.read failed on a CF-compliant file with {len(p['containers'])} geometry containers: {c.impl_out}"
+    for i, j in enumerate(p["vars"]):
+        q, dec, o = p["containers"][j], decs[j], obs[i]
+        src = q.get("nodes_of")
+        jj = j if src is None else src
+        if "error" in o:
+            return f"pr{i}: {o['error']}"
+        if o["_fshape"] != [dec["ncells"]]:
+            return f"pr{i}: field shape {o['_fshape']} != [{dec['ncells']}]"
+        for k, a in enumerate(q["coords"]):
+            r = o[a]
+            if "error" in r:
+                return f"pr{i}: {r['error']}"
+            cells = [[[int(x - 1000.0 * k - NODESET * jj) for x in part] for part in cell] for cell in dec["cells"][f"{a}{jj}"]]
+            shp, flat = pad3(cells)
+            if r["shape"] != shp:
+                return f"pr{i}: {a}: bounds shape {r['shape']} != {shp} (cells x max parts x max nodes of container gc{j})"
+            if r["b"] != flat:
+                return f"pr{i}: {a}: bounds are not the cells of container gc{j} in file order, padded"
+            if r["cshape"] != [dec["ncells"]] or r["cndim"] != 1 or r["csize"] != dec["ncells"]:
+                return f"pr{i}: {a}: coordinate shape/ndim/size {r['cshape']}/{r['cndim']}/{r['csize']} are not those of {dec['ncells']} cells"
+            if r["type"] != dec["type"]:
+                return f"pr{i}: {a}: geometry type {r['type']} != {dec['type']} of container gc{j}"
+            if r["has_data"] != (a in q["rep"]):
+                return f"pr{i}: {a}: representative coordinate presence wrong"
+            if r["has_data"] and r["data"] != [10.0 * t + 5.0 + 100.0 * j for t in range(dec["ncells"])]:
+                return f"pr{i}: {a}: representative coordinate values changed"
+            if dec["ring"] is None:
+                if r["ring"] is not None:
+                    return f"pr{i}: {a}: interior ring invented"
+            else:
+                if r["ring"] is None:
+                    return f"pr{i}: {a}: interior ring lost"
+                rs, rflat = pad2(dec["ring"])
+                if r["ring_shape"] != rs or r["ring"] != rflat:
+                    return f"pr{i}: {a}: interior ring is not the flags of container gc{j} by part"
+            # the node coordinate variable's attributes are the properties of the bounds; the
+            # representative coordinate variable's (without `nodes`) those of the coordinate
+            src_q = p["containers"][jj]
+            want_b = {att: val for att, val in zip(("standard_name", "units", "axis"), STD[a][:3])
+                      if att in src_q.get("node_atts", ("standard_name", "units", "axis"))}
+            if r["bprops"] != want_b:
+                return f"pr{i}: {a}: bounds properties {r['bprops']} != attributes of the node coordinate variable {want_b}"
+            want_c = dict(zip(("standard_name", "units"), STD[a][:2])) if a in q["rep"] else {}
+            if r["cprops"] != want_c:
+                return f"pr{i}: {a}: coordinate properties {r['cprops']} != {want_c}"
+        if o["_ngm"] != (1 if q.get("gm") else 0):
+            return f"pr{i}: {o['_ngm']} grid mapping coordinate references, the container has {'one' if q.get('gm') else 'none'}"
+    return None
+
+
+# ---------------------------------------------------------------- Field-level operations on geometry cells
+COPS = ["ins0", "ins1", "T", "sq"]
+
+
+def gen_ops(rng):
+    p = gen_container(rng)
+    p["layout"] = rng.choice(["it", "i"])
+    n = len(p["cells"])
+    r = rng.random()
+    if r < 0.1:
+        sel = None
+        idx = list(range(n))
+    elif r < 0.6:
+        start = rng.choice([None, None, rng.randint(-n - 1, n + 1)])
+        stop = rng.choice([None, None, rng.randint(-n - 1, n + 1)])
+        step = rng.choice([None, 1, 1, 2, -1, -1, -2, 3])
+        idx = list(range(n))[slice(start, stop, step)]
+        if not idx:
+            start, stop, step = None, None, rng.choice([1, -1])
+            idx = list(range(n))[slice(start, stop, step)]
+        sel = dict(kind="slice", start=start, stop=stop, step=step)
+    elif r < 0.8:
+        k = rng.randint(1, n)
+        idx = sorted(rng.sample(range(n), k))
+        if rng.random() < 0.3:
+            idx = idx[::-1]
+        sel = dict(kind="list", idx=[i - n if rng.random() < 0.2 else i for i in idx])
+    else:
+        i = rng.randrange(n)
+        idx = [i]
+        sel = dict(kind="slice", start=i, stop=i + 1, step=None)
+    p["sel"], p["idx"] = sel, idx
+    fops = ["none", "none", "transpose", "transpose-constructs"]
+    p["fop"] = rng.choice(fops)
+    if len(idx) == 1 and rng.random() < 0.12:
+        p["fop"] = "squeeze"     # the geometry axis is no longer spanned by the data (open finding on write)
+    p["cop"] = [rng.choice(COPS) for _ in range(rng.choice([0, 1, 2, 3, 4]))]
+    p["named"] = rng.random() < 0.3
+    return p
+
+
+def cop_shape(shape, ops):
+    """Independent restatement: shape of a coordinate after insert_dimension / transpose / squeeze."""
+    s = list(shape)
+    for o in ops:
+        if o == "ins0":
+            s = [1] + s
+        elif o == "ins1":
+            s = s[:1] + [1] + s[1:] if len(s) >= 1 else [1]
+        elif o == "T":
+            s = s[::-1]
+        elif o == "sq":
+            s = [x for x in s if x != 1]
+    return s
+
+
+def mk_ops(p):
+    p = dict(p)
+    ring = enc_cells(p["ring"]) if p["ring"] is not None else "-"
+    cop = "[" + ",".join(p["cop"]) + "]"
+    line = f"C14.ops cells={enc_cells(p['cells'])} ring={ring} sel={fmt_list(p['idx'])} cop={cop}"
+    key = f"{line} {p['gtype']} {p['coords']} {p['rep']} {p['layout']} {p['fop']} {p['sel']}"
+    tags = [f"ops:sel={'all' if p['sel'] is None else p['sel']['kind']}", f"ops:fop={p['fop']}",
+            f"ops:ncop={len(p['cop'])}", f"ops:selected={min(len(p['idx']), 3)}{'+' if len(p['idx']) > 3 else ''}",
+            f"ops:reversed={'y' if p['idx'] != sorted(p['idx']) else 'n'}"]
+    return Case("C14.ops", p, line, key=key, nontrivial=_nontrivial(p), tags=tags)
+
+
+def impl_ops(c):
+    C = cfdm()
+    p = c.payload
+    path = tmpfile("o")
+    c.extra = dict(file=None, obs=None, cop=None)
+    try:
+        f = build_field(p)
+        sel = p["sel"]
+        if sel is None:
+            g = f
+        elif sel["kind"] == "slice":
+            g = f[slice(sel["start"], sel["stop"], sel["step"])]
+        else:
+            g = f[sel["idx"]]
+        if p["fop"] == "transpose":
+            g = g.transpose()
+        elif p["fop"] == "transpose-constructs":
+            g = g.transpose(constructs=True)
+        elif p["fop"] == "squeeze":
+            g = g.squeeze()
+        obs = observe_field(g, p["coords"])
+        c.extra["obs"] = obs
+        # coordinate-level operations
+        cops = {}
+        for k, a in enumerate(p["coords"]):
+            x = [y for y in g.auxiliary_coordinates(todict=True).values()
+                 if y.has_bounds() and y.bounds.nc_get_variable(None) == a][0]
+            b0 = np.ma.asanyarray(x.bounds.array)
+            for o in p["cop"]:
+                if o == "ins0":
+                    x = x.insert_dimension(0)
+                elif o == "ins1":
+                    x = x.insert_dimension(1 if x.ndim >= 1 else 0)
+                elif o == "T":
+                    x = x.transpose()
+                elif o == "sq":
+                    x = x.squeeze()
+            b1 = np.ma.asanyarray(x.bounds.array)
+            same = (np.array_equal(np.ma.getmaskarray(b0).flatten(), np.ma.getmaskarray(b1).flatten())
+                    and np.array_equal(b0.filled(-1).flatten(), b1.filled(-1).flatten()))
+            cops[a] = dict(c=list(x.shape), ndim=x.ndim, size=x.size, b=list(x.bounds.shape),
+                           r=(list(x.get_interior_ring().shape) if x.has_interior_ring() else None), same=same)
+        c.extra["cop"] = cops
+        first = cops[p["coords"][0]]
+        copS = (f"c={fmt_list(first['c'])} b={fmt_list(first['b'])} "
+                f"r={fmt_list(first['r']) if first['r'] is not None else '-'}")
+        if any(v != first for v in cops.values()):
+            copS = "differ:" + str(cops)
+        try:
+            C.write(g, path)
+        except Exception as e:
+            c.extra["write_error"] = "raised:" + fw.exc_enum(e)
+            return canon_read(obs) + " | " + copS + " | " + c.extra["write_error"]
+        c.extra["file"] = abstract_file(path)
+        return canon_read(obs) + " | " + copS + " | " + canon_written(c.extra["file"], p["coords"])
+    finally:
+        if os.path.exists(path):
+            os.remove(path)
+
+
+def oracle_ops(c):
+    p = c.payload
+    ex = c.extra if isinstance(c.extra, dict) else {}
+    obs = ex.get("obs")
+    if obs is None:
+        return f"the operation failed on a valid geometry field: {c.impl_out}"
+    idx = p["idx"]
+    allc = id_cells(p["cells"])
+    want = [allc[i] for i in idx]
+    mp = max(len(x) for x in allc)
+    mn = max(len(q) for x in allc for q in x)
+    flat = []
+    for cell in want:
+        for i in range(mp):
+            part = cell[i] if i < len(cell) else []
+            flat += list(part) + [None] * (mn - len(part))
+    shp = [len(want), mp, mn]
+    for k, a in enumerate(p["coords"]):
+        o = obs[a]
+        if "error" in o:
+            return o["error"]
+        if o["shape"] != shp:
+            return f"{a}: bounds shape {o['shape']} after the subspace != {shp}"
+        if o["b"] != flat:
+            return f"{a}: bounds after the subspace are not the selected cells {idx}"
+        if o["cshape"] != [len(want)] or o["csize"] != len(want):
+            return f"{a}: coordinate shape {o['cshape']} / size {o['csize']} after the subspace"
+        if o["type"] != p["gtype"]:
+            return f"{a}: geometry type lost"
+        if o["has_data"] != (a in p["rep"]) or (o["has_data"] and o["data"] != [10.0 * i + 5.0 for i in idx]):
+            return f"{a}: representative values after the subspace"
+        if p["ring"] is None:
+            if o["ring"] is not None:
+                return f"{a}: interior ring invented"
+        else:
+            rflat = []
+            for i in idx:
+                r = p["ring"][i]
+                rflat += list(r) + [None] * (mp - len(r))
+            if o["ring"] is None or o["ring_shape"] != [len(want), mp] or o["ring"] != rflat:
+                return f"{a}: interior ring after the subspace is not that of the selected cells"
+        co = ex["cop"][a]
+        cs = cop_shape([len(want)], p["cop"])
+        if co["c"] != cs or co["ndim"] != len(cs) or co["size"] != len(want):
+            return f"{a}: coordinate shape {co['c']} (ndim {co['ndim']}, size {co['size']}) after {p['cop']} != {cs}"
+        if co["b"] != cs + [mp, mn]:
+            return f"{a}: bounds shape {co['b']} after {p['cop']} != {cs + [mp, mn]}"
+        if (co["r"] is None) != (p["ring"] is None) or (co["r"] is not None and co["r"] != cs + [mp]):
+            return f"{a}: interior ring shape {co['r']} after {p['cop']} != {cs + [mp]}"
+        if not co["same"]:
+            return f"{a}: node values moved under {p['cop']}"
+    if ex.get("write_error"):
+        return f"cfdm.write {ex['write_error']} on the field after {p['sel']} / {p['fop']}"
+    q = dict(p)
+    q["cells"] = [p["cells"][i] for i in idx]
+    q["ring"] = None if p["ring"] is None else [p["ring"][i] for i in idx]
+    af = ex.get("file")
+    msg = oracle_written_values(af, q, [allc[i] for i in idx], [10.0 * i + 5.0 for i in idx], "write after the operation")
+    return msg
+
+
+def oracle_written_values(af, p, want, want_rep, where):
+    """As oracle_written, with the node values / representative values given explicitly."""
+    if af is None:
+        return f"{where}: no file written"
+    try:
+        g = container_of(af)
+        dv = [v for v in af["vars"].values() if v["atts"].get("geometry") == g][0]
+        dec = cf75_decode(af, g, data_dims=dv["dims"])
+    except Undecodable as e:
+        return f"{where}: written container is not decodable by CF 7.5: {e}"
+    if sorted(dec["node_vars"]) != sorted(p["coords"]):
+        return f"{where}: node coordinate variables {dec['node_vars']} != {p['coords']}"
+    if dec["type"] != p["gtype"]:
+        return f"{where}: geometry_type {dec['type']} != {p['gtype']}"
+    for k, a in enumerate(p["coords"]):
+        got = [[[x - 1000.0 * k for x in part] for part in cell] for cell in dec["cells"][a]]
+        if got != want:
+            return f"{where}: {a}: decoded cells {_short_cells(got)} != {_short_cells(want)} (or other node values)"
+    if p["ring"] is None:
+        if dec["ring"] is not None:
+            return f"{where}: interior ring invented"
+    elif dec["ring"] != p["ring"]:
+        return f"{where}: interior ring {dec['ring']} != {p['ring']}"
+    V = af["vars"]
+    for a in p["rep"]:
+        reps = [k for k, v in V.items() if v["atts"].get("nodes") == a]
+        if len(reps) != 1:
+            return f"{where}: {len(reps)} variables with nodes={a}"
+        if V[reps[0]]["vals"] != want_rep:
+            return f"{where}: representative coordinate of {a} changed"
+    return None
+
+
 def impl(c):
     if c.stream == "C14.read":
         return impl_read(c)
@@ -727,11 +1966,31 @@ def impl(c):
         return impl_rt(c)
     if c.stream == "C14.seed":
         return impl_seed(c)
+    if c.stream == "C14.multi":
+        return impl_multi(c)
+    if c.stream == "C14.mread":
+        return impl_mread(c)
+    if c.stream == "C14.ops":
+        return impl_ops(c)
     raise fw.HarnessError("unknown stream " + c.stream)
 
 
 def agree(c):
-    return c.impl_out == c.model_out
+    if c.impl_out == c.model_out:
+        return True
+    if c.stream == "C14.multi" and c.line is not None:
+        # The model is the writer with the repair proposed for the open finding
+        # write-node-variable-reused-with-other-cells.  On the inputs where that repair changes the
+        # sharing decisions (an equal node coordinate variable of other cells / rings exists on the same
+        # geometry dimension) the writer as it stands must behave exactly as the model of the writer as it
+        # stands (`old=1`); whether the file is right is the oracle's business (it is not always wrong: a
+        # node variable shared by a container with and one without rings decodes correctly).
+        try:
+            old = fw.model_run([c.line + " old=1"])[0]
+        except Exception:
+            return False
+        return old != c.model_out and c.impl_out == old
+    return False
 
 
 # ---------------------------------------------------------------- oracle
@@ -809,13 +2068,17 @@ def oracle_written(af, p, where):
         return f"{where}: no file written"
     try:
         g = container_of(af)
-        dec = cf75_decode(af, g)
+        dv = [v for v in af["vars"].values() if v["atts"].get("geometry") == g][0]
+        dec = cf75_decode(af, g, data_dims=dv["dims"])
     except Undecodable as e:
         return f"{where}: written container is not decodable by CF 7.5: {e}"
     if sorted(dec["node_vars"]) != sorted(p["coords"]):
         return f"{where}: node coordinate variables {dec['node_vars']} != {p['coords']}"
     if dec["type"] != p["gtype"]:
         return f"{where}: geometry_type {dec['type']} != {p['gtype']}"
+    if p.get("check_gm_absent") and af["vars"][g]["atts"].get("grid_mapping") is not None:
+        return (f"{where}: container has a grid_mapping attribute {af['vars'][g]['atts'].get('grid_mapping')!r} "
+                "but the field has no grid mapping")
     want = id_cells(p["cells"])
     for k, a in enumerate(p["coords"]):
         got = [[[x - 1000.0 * k for x in part] for part in cell] for cell in dec["cells"][a]]
@@ -845,6 +2108,12 @@ def oracle(c):
     ex = c.extra if isinstance(c.extra, dict) else {}
     if c.stream == "C14.read":
         return oracle_read(c)
+    if c.stream == "C14.multi":
+        return oracle_multi(c)
+    if c.stream == "C14.mread":
+        return oracle_mread(c)
+    if c.stream == "C14.ops":
+        return oracle_ops(c)
     if c.stream == "C14.write":
         if str(c.impl_out).startswith("raised"):
             return f"cfdm.write {c.impl_out} on a valid geometry field"
@@ -906,6 +2175,10 @@ def _variants(p):
                 if r2 is not None and r2[i] and r2[i][0] != 0:
                     continue
                 yield mk(cells[:i] + [c2] + cells[i + 1:], r2)
+            if c[j] > 8 and p["use_nc"]:
+                # large counts (storage-type families): halve before decrementing
+                c2 = c[:j] + [c[j] // 2] + c[j + 1:]
+                yield mk(cells[:i] + [c2] + cells[i + 1:], ring)
             if c[j] > 1 and p["use_nc"]:
                 c2 = c[:j] + [c[j] - 1] + c[j + 1:]
                 yield mk(cells[:i] + [c2] + cells[i + 1:], ring)
@@ -920,10 +2193,78 @@ def _variants(p):
         yield mk(cells, ring, layout="i")
 
 
+def _variants_new(stream, p):
+    """Smaller inputs of the multi / mread / ops streams."""
+    if stream == "C14.multi":
+        fs = p["fields"]
+        for i in range(len(fs)):
+            if len(fs) > 1:
+                yield dict(p, fields=fs[:i] + fs[i + 1:], family=p.get("family", []))
+        for i, fl in enumerate(fs):
+            for q in _variants(dict(fl, use_nc=True, use_pnc=True)):
+                q = {k: v for k, v in q.items() if k not in ("use_nc", "use_pnc")}
+                if isinstance(q.get("nodeset"), dict):
+                    q["nodeset"] = {a: q["nodeset"].get(a, 0) for a in q["coords"]}
+                yield dict(p, fields=fs[:i] + [q] + fs[i + 1:])
+    elif stream == "C14.mread":
+        cs, vs = p["containers"], p["vars"]
+        for i in range(len(vs)):
+            if len(vs) > 1:
+                yield dict(p, vars=vs[:i] + vs[i + 1:])
+        # a container that no data variable names and no other container depends on can go
+        for j in range(len(cs) - 1, -1, -1):
+            used = j in vs or any(q.get(k) == j for jj, q in enumerate(cs) if jj != j for k in ("inst", "node", "part", "nodes_of"))
+            if not used and len(cs) > 1 and j == len(cs) - 1:
+                yield dict(p, containers=cs[:j])
+        if p.get("grouped"):
+            yield dict(p, grouped=False)
+        for j, q in enumerate(cs):
+            if q.get("gm"):
+                yield dict(p, containers=cs[:j] + [dict(q, gm=False)] + cs[j + 1:])
+    elif stream == "C14.ops":
+        if p["cop"]:
+            yield dict(p, cop=p["cop"][:-1])
+        if p["layout"] != "i":
+            yield dict(p, layout="i")
+        if len(p["coords"]) > 1:
+            a = p["coords"][-1]
+            yield dict(p, coords=p["coords"][:-1], rep=[b for b in p["rep"] if b != a])
+        if p["rep"]:
+            yield dict(p, rep=[])
+
+
+def shrink_new(c):
+    sig = classify(c)
+    best = c
+    improved = True
+    steps = 0
+    while improved and steps < 120:
+        improved = False
+        for q in _variants_new(c.stream, best.payload):
+            steps += 1
+            try:
+                d = from_payload(c.stream, q)
+                if d.line is not None:
+                    d.model_out = fw.model_run([d.line])[0]
+                    if d.model_out == "bad-op":
+                        continue
+                d.impl_out = impl(d)
+                d.oracle_fail = oracle(d)
+            except Exception:
+                continue
+            if d.oracle_fail and classify(d) == sig:
+                best = d
+                improved = True
+                break
+    return best if best is not c else None
+
+
 def shrink(c, run):
     """Greedy delta-debugging: keep a smaller container while it still fails with the same signature."""
     if c.stream == "C14.seed":
         return None
+    if c.stream in ("C14.multi", "C14.mread", "C14.ops"):
+        return shrink_new(c)
     sig = classify(c)
     best = c
     improved = True
@@ -989,10 +2330,80 @@ def true_part_index(cells):
     return [ci for ci, c in enumerate(cells) for _ in c]
 
 
+W1 = "write-node-variable-reused-with-other-cells"
+W2 = "write-empty-grid-mapping-attribute-on-container"
+W3 = "write-geometry-axis-not-spanned-by-data"
+R1 = "read-containers-sharing-a-node-or-part-dimension"
+R2 = "read-node-variable-shared-by-two-containers"
+
+
+def mread_shared_dimension(p):
+    """Two containers of a hand-encoded file on one node dimension with other counts, or on one part
+    dimension with an interior ring variable each."""
+    cs = p["containers"]
+    for i, a in enumerate(cs):
+        for j in range(i + 1, len(cs)):
+            b = cs[j]
+            if a.get("nodes_of") == i or b.get("nodes_of") == i:
+                pass
+            if a["use_nc"] and b["use_nc"] and a.get("node", i) == b.get("node", j) and a["cells"] != b["cells"]:
+                return True
+            if (a["use_pnc"] and b["use_pnc"] and a.get("part", i) == b.get("part", j)
+                    and a["ring"] is not None and b["ring"] is not None):
+                return True
+    return False
+
+
+def mread_shared_nodes(p):
+    cs = p["containers"]
+    return any(q.get("nodes_of") is not None
+               and (q["gtype"] != cs[q["nodes_of"]]["gtype"] or q["ring"] != cs[q["nodes_of"]]["ring"]) for q in cs)
+
+
+def classify_new(c):
+    """Signatures of the streams multi / mread / ops (input condition + which check failed)."""
+    p = c.payload
+    msg = str(c.oracle_fail or "")
+    kind = c.stream.split(".")[-1]
+    if c.stream == "C14.multi":
+        if "has a grid_mapping attribute" in msg and p.get("check_gm_absent"):
+            return W2
+        if "read back" in msg or msg.startswith("cfdm.read of the written file"):
+            if shared_dimension_other_counts(p["fields"]):
+                return R1
+            if shared_nodes_other_container(p["fields"]):
+                return R2
+            return "unclassified-multi-readback"
+        # a file-level failure (or cfdm.write raised): known only where the writer as it stands and
+        # the writer with the proposed repair decide differently on this very input
+        try:
+            old, new = fw.model_run([c.line + " old=1", c.line])
+        except Exception:
+            return "unclassified-multi"
+        if old != new:
+            return W1
+        return "unclassified-multi"
+    if c.stream == "C14.mread":
+        if mread_shared_dimension(p):
+            return R1
+        if mread_shared_nodes(p):
+            return R2
+        return "unclassified-mread"
+    if c.stream == "C14.ops":
+        if p.get("fop") == "squeeze" and len(p["idx"]) == 1 and "cfdm.write raised:IndexError" in msg:
+            return W3
+        return "unclassified-ops"
+    return "unclassified-" + kind
+
+
 def classify(c):
     p = c.payload
     if c.stream == "C14.seed":
         return "unclassified-seed"
+    if c.stream in ("C14.multi", "C14.mread", "C14.ops"):
+        return classify_new(c)
+    if c.stream == "C14.write" and p.get("check_gm_absent") and "has a grid_mapping attribute" in str(c.oracle_fail or ""):
+        return W2
     cells = p["cells"]
     nc = [sum(x) for x in cells]
     pnc = [v for x in cells for v in x]
